@@ -257,7 +257,7 @@ fn run(args: &Args) -> i32 {
     let partial: u64 = REQUIRED_NODE_KINDS.iter().map(|k| rep.get_count(&format!("metric_skipped_partially_consumed/{k}"))).sum();
     rep.obligation("partially-consumed-seen", partial > 0, "the completeness flag must have excluded some partially consumed node (limit / early stop)");
     vcommon::par::run(args.workers, 0..n_rand, |i| {
-        if rep.violation_count() > 40 || !rep.within_budget(70.0) {
+        if rep.violation_count() > 4000 || !rep.within_budget(args.tier.pick(70.0, 900.0)) {
             return;
         }
         if i % 6 == 5 {
